@@ -11,7 +11,7 @@ def dump(n):
     return ast.dump(n, include_attributes=True)
 
 
-def check_one(src, path, hook, tc, want_coq):
+def check_one(src, path, hook, tc, want_coq, shared=None):
     problems = []
     try:
         tree0 = compile(src, path, "exec", ast.PyCF_ONLY_AST, dont_inherit=True)
@@ -24,7 +24,8 @@ def check_one(src, path, hook, tc, want_coq):
     except (SyntaxError, ValueError, RecursionError) as e:
         return {"skip": "does not compile untransformed: " + type(e).__name__}
     tree1 = copy.deepcopy(tree0)
-    tree1 = hook.JaxtypingTransformer(typechecker=tc).visit(tree1)
+    # the import hook builds one transformer per module, the IPython magic keeps ONE for every cell: both are exercised
+    tree1 = (shared if shared is not None else hook.JaxtypingTransformer(typechecker=tc)).visit(tree1)
     ast.fix_missing_locations(tree1)
     # (a) always compiles, same __future__ flags, same docstring
     try:
@@ -102,16 +103,21 @@ def main():
         from jaxtyping import _import_hook as hook
         tc = hook.Typechecker(req.get("checker", "typeguard.typechecked"))
         res = []
+        shared_tr = hook.JaxtypingTransformer(typechecker=tc)
+        nth = [0]
+        def pick():
+            nth[0] += 1
+            return shared_tr if nth[0] % 2 == 0 else None
         for p in req.get("files", []):
             try:
                 src = open(p, "rb").read()
             except OSError as e:
                 res.append({"skip": str(e)}); continue
-            r = check_one(src, p, hook, tc, req.get("coq", False))
+            r = check_one(src, p, hook, tc, req.get("coq", False), shared=pick())
             r["path"] = p
             res.append(r)
         for k, s in enumerate(req.get("sources", [])):
-            r = check_one(s, "<gen%d>" % k, hook, tc, req.get("coq", False))
+            r = check_one(s, "<gen%d>" % k, hook, tc, req.get("coq", False), shared=pick())
             r["path"] = "<gen%d>" % k
             res.append(r)
     print(json.dumps(res))
